@@ -446,6 +446,9 @@ SEMI_SRC = {
     "Assignment": "a = b", "LocalAssignment": "local a = b", "FunctionCall": "f(a)", "Repeat": "repeat x() until a", "CompoundAssignment": "a += b",
 }
 NEXT_SRC = {"FunctionCall": "(c)()", "Assignment": "(c).k = 1", "CompoundAssignment": "(c).k += 1"}
+# further shapes of the next statement (the solver's model fixes only its kind): several targets, the parenthesis on the first one only
+NEXT_VARIANTS = {"Assignment": ["(c).k, d.m = 1, 2", "(c).k, (d).m = 1, 2", "(c)[1], d = 1, 2"], "FunctionCall": ["(c):m()", "(c).k()", "(c)[1]()", "(c) 'x'"],
+                 "CompoundAssignment": ["(c)[1] += 1"]}
 
 
 def replay_semicolon(info):
@@ -453,14 +456,16 @@ def replay_semicolon(info):
     cur, nx = SEMI_SRC.get(info["current"]), NEXT_SRC.get(info["next"], "(c)()")
     if cur is None:
         return None, {"note": "no source template for " + info["current"]}
-    src = f"{cur};\n{nx}\n"
-    for syn in (["luau"] if "+=" in src else ["lua51", "luau", "lua54"]):
-        rc, out, err = common.run_stylua(binp, src, ["--syntax", syn])
-        if rc != 0:
-            continue
-        flat = re.sub(r"\s+", "", out)
-        if ";" + re.sub(r"\s+", "", nx)[:3] not in flat:
-            return f"the semicolon between `{cur}` and `{nx}` was removed ({syn}): the two statements merge into one call", {"source": src, "syntax": syn, "output": out}
+    src = ""
+    for nx in [nx] + NEXT_VARIANTS.get(info["next"], []):
+        src = f"{cur};\n{nx}\n"
+        for syn in (["luau"] if "+=" in src else ["lua51", "luau", "lua54"]):
+            rc, out, err = common.run_stylua(binp, src, ["--syntax", syn])
+            if rc != 0:
+                continue
+            flat = re.sub(r"\s+", "", out)
+            if ";" + re.sub(r"\s+", "", nx)[:3] not in flat:
+                return f"the semicolon between `{cur}` and `{nx}` was removed ({syn}): the two statements merge into one call", {"source": src, "syntax": syn, "output": out}
     return None, {"source": src}
 
 
